@@ -227,6 +227,7 @@ def main(argv=None):
     ap.add_argument("--only", help="comma list of sub-check names")
     ap.add_argument("--jobs", type=int, default=int(os.environ.get("VERIF_JOBS", "16")))
     ap.add_argument("--no-evidence", action="store_true")
+    ap.add_argument("--no-replay-file", action="store_true", help="report violations without writing replays/")
     a = ap.parse_args(argv)
     prop = a.prop.upper()
     os.environ.setdefault("PYTHONHASHSEED", "0")
@@ -252,10 +253,20 @@ def main(argv=None):
         tasks = [(modname, a.tier, i, sh, base_seed) for i in idx for sh in range(subs[i].shards)]
         results = []
         ctx = multiprocessing.get_context("fork")
-        with ProcessPoolExecutor(max_workers=a.jobs, mp_context=ctx) as ex:
+        failfast = bool(os.environ.get("VERIF_FAILFAST"))   # tools/mutants.py: stop at the first violation
+        ex = ProcessPoolExecutor(max_workers=a.jobs, mp_context=ctx)
+        try:
             futs = [ex.submit(_worker, *t) for t in tasks]
             for f in as_completed(futs):
                 results.append(f.result())
+                if failfast and results[-1].get("fail"):
+                    procs = list(getattr(ex, "_processes", {}).values())
+                    ex.shutdown(wait=False, cancel_futures=True)
+                    for p in procs:
+                        p.kill()
+                    break
+        finally:
+            ex.shutdown(wait=not (failfast and any(r.get("fail") for r in results)), cancel_futures=True)
     except Exception:  # noqa: BLE001
         traceback.print_exc()
         print(f"HARNESS-ERROR property={prop}")
@@ -328,7 +339,7 @@ def main(argv=None):
     for e in open_entries:
         lines.append(f"KNOWN-FINDING: property={prop} {e['id']} {e['what']} (hits this run: {known.get(e['id'], 0)})")
     for sig, rec in sorted(fails.items()):
-        path = write_replay(prop, fail_sub[sig], sig, rec)
+        path = "-" if a.no_replay_file else write_replay(prop, fail_sub[sig], sig, rec)
         lines.append(f"violation: {sig}: {rec['what']}")
         lines.append(f"VIOLATION property={prop} replay={path}")
         rc = 1
